@@ -30,10 +30,10 @@ from pyvc.interp import Native, PyRaise, ObjVal, FuncVal, CannotMerge
 
 PROP = "C08"
 MIN_OBLIGATIONS = 40
-NOT_DECIDED = ["not decided: _recycled_powerflow and runpp_3ph end in _clean_up without a preceding _add_auxiliary_elements; with dclines in the "
-               "net both raise before reaching it on the real code (not reproducible as table corruption), without dclines _clean_up is a "
-               "no-op: the drivers are therefore not under the aux-balance contract",
-               "not decided: state estimation drivers (module does not import under the installed numpy), run_contingency is C14",
+NOT_DECIDED = ["not decided: _recycled_powerflow ends in _clean_up without a preceding _add_auxiliary_elements; with dclines in the net it raises "
+               "before reaching it on the real code (not reproducible as table corruption), without dclines _clean_up is a no-op: this driver "
+               "is therefore not under the aux-balance contract",
+               "bounded native stand-in only: state estimation and run_contingency_ls2g (temporary table conversions); run_contingency is C14",
                "not decided: atomicity of _add_auxiliary_elements / _clean_up themselves (a raise in the middle of them)",
                "not decided: the result tables (net.res_*) and internal keys (net._*) -- they belong to the calculation"]
 
@@ -43,6 +43,7 @@ DRIVERS = {
                                                             args=lambda net: ([net, False, True], {})),
     "pandapower.shortcircuit.calc_sc:_calc_sc": dict(options=[dict(inverse_y=True, branch_results=False, ip=False, ith=False, fault="3ph")], args=lambda net: ([net, Opaque("bus")], {})),
     "pandapower.shortcircuit.calc_sc:_calc_sc_1ph": dict(options=[dict(inverse_y=True, branch_results=False, fault="1ph")], args=lambda net: ([net, Opaque("bus")], {})),
+    "pandapower.pf.runpp_3ph:runpp_3ph": dict(options=[dict(mode="pf_3ph")], args=lambda net: ([net], {})),
 }
 # functions whose real text is executed in part (a); every other repository function is a call site that may raise
 INTERPRETED = set(DRIVERS) | {"pandapower.powerflow:_ppci_to_net", "pandapower.shortcircuit.ppc_conversion:_init_ppc",
@@ -129,6 +130,16 @@ def run(vc):
     _pairing(vc)
     from contracts import C08_frame
     C08_frame.run(vc)
+    if not hasattr(vc, "native_standins"):
+        vc.native_standins = []
+    vc.native_standins.append(dict(
+        name="drivers outside the deductive part: user tables after a run that raises",
+        bound="runpp_3ph on one net with a dcline (after a runpp / fresh); run_contingency_ls2g with an ideal phase shifter on a net that "
+              "lightsim2grid rejects; a non-observable state estimation with closed bus-bus switches (both skipped with a note when the module "
+              "is not importable)",
+        script="import sys\nfrom replaylib.netframe import main_3ph, main_other_drivers\n"
+               "for f in (main_3ph, main_other_drivers):\n    try:\n        f()\n    except SystemExit as e:\n        if e.code:\n            raise\n",
+        timeout=900))
 
 
 def _pairing(vc):
@@ -275,6 +286,9 @@ KNOWN_EXCLUSIONS = {
 def replay(ob, model, finding=None):
     m = ob.meta
     if m.get("clause") == "aux":
+        if m.get("driver") == "runpp_3ph":
+            return {"script": f"# replay of {ob.id}\nfrom replaylib.netframe import main_3ph\nmain_3ph()\n",
+                    "description": "runpp_3ph on a net with two (out-of-service) gens and a dcline, after a runpp and on a fresh net: net.gen unchanged"}
         return {"script": f"# replay of {ob.id}\nfrom replaylib.netframe import main_aux\nmain_aux({m.get('driver')!r}, {m.get('where')!r}, {m.get('aux')!r})\n",
                 "description": "net with a dcline / b2b_vsc: the calculation (with a failure injected at the call site of the counter-example) "
                                "must leave the number of gens / vscs unchanged"}
